@@ -18,7 +18,8 @@ MC = {"wasm32": "MC_Layout", "lp64u": "MC_Layout_lp64u", "lp16": "MC_Layout_lp16
 FIXED = [["long", "char", "ptr", "short", "inner", "fnptr", "larr2", "llong"],
          ["char", "llong", "carr3", "parr2", "bool", "double", "uchar", "enum"],
          ["float", "iarr2", "ulong", "ushort", "uint", "int", "carr3", "long"],
-         ["short", "iarr2x2", "char", "larr2x2", "carr2x2", "int"]]
+         ["short", "iarr2x2", "char", "larr2x2", "carr2x2", "int"],
+         ["char", "innerp", "short", "inner", "ptr"]]
 
 
 def run_abi(chk, wd, abi, thorough, nsample):
